@@ -107,6 +107,7 @@ pub fn c04(seed: u64) -> Vec<Scenario> {
         add(Tier::Quick, format!("fund.close.{}", p.tag()), d, 600, 150, Box::new(t_fund(pc.clone(), 0)));
         add(Tier::Quick, format!("fund.close.{}", p.clone().fees().tag()), d, 600, 150, Box::new(t_fund(pc.clone().fees(), 0)));
         add(Tier::Quick, format!("fund.pclose.close.{}", p.tag()), d, 600, 150, Box::new(t_fund_pclose(pc.clone())));
+        add(Tier::Quick, format!("fund.liq.close.{}", p.tag()), d, 600, 150, Box::new(t_fund_liq(pc.clone(), true)));
         for (rn, ru) in [("healthy", 3u128), ("zero-equity", 7), ("bad-debt", 45)] {
             add(Tier::Quick, format!("close10x.{}.{}", rn, p.tag()), d, 400, 150, Box::new(t_close_regime(pc.clone(), ru)));
         }
@@ -169,6 +170,10 @@ pub fn liq(prop: &'static str, seed: u64) -> Vec<Scenario> {
         add(Tier::Quick, format!("shallow.{}", pc.clone().fees().tag()), d, 600, 150, Box::new(t_liq(pc.clone().fees(), 5)));
         add(Tier::Quick, format!("shallow.{}", pc.clone().native().partial().tag()), d, 600, 150, Box::new(t_liq(pc.clone().native().partial(), 5)));
         add(Tier::Quick, format!("deep.{}", pc.clone().native().tag()), d, 600, 150, Box::new(t_liq(pc.clone().native(), 45)));
+        add(Tier::Quick, format!("prepaid-bad-debt.{}", pc.tag()), d, 600, 150, Box::new(t_liq_prepaid(pc.clone())));
+        add(Tier::Quick, format!("prepaid-bad-debt.{}", pc.clone().native().tag()), d, 600, 150, Box::new(t_liq_prepaid(pc.clone().native())));
+        add(Tier::Quick, format!("shallow.{}", pc.clone().real_feed().tag()), d, 600, 150, Box::new(t_liq(pc.clone().real_feed(), 5)));
+        add(Tier::Quick, format!("deep.{}", pc.clone().real_feed().partial().tag()), d, 600, 150, Box::new(t_liq(pc.clone().real_feed().partial(), 45)));
         add(Tier::Thorough, format!("shallow.{}", pc.clone().partial().counter().oracle().tag()), d, 3000, 1200, Box::new(t_liq(pc.clone().partial().counter().oracle(), 5)));
         add(Tier::Thorough, format!("boundary.{}", pc.clone().partial().counter().tag()), d, 3000, 1200, Box::new(t_liq(pc.clone().partial().counter(), 7)));
         add(Tier::Thorough, format!("deep.{}", pc.clone().partial().counter().tag()), d, 3000, 1200, Box::new(t_liq(pc.clone().partial().counter(), 45)));
